@@ -202,11 +202,19 @@ func genWorkload(t *rapid.T, cfg wlCfg) *Workload {
 		if rapid.Bool().Draw(t, "bigKind") {
 			// one big page
 			n := rapid.IntRange(2000, 4000).Draw(t, "bigN")
-			if rapid.IntRange(0, 3).Draw(t, "bigger") == 2 {
+			switch rapid.IntRange(0, 5).Draw(t, "bigger") {
+			case 2:
 				n = rapid.IntRange(8200, 9000).Draw(t, "biggerN") // level runs beyond 8192 (three-byte run headers)
+				g.MaxList = 12                                    // and level streams of tens of thousands of 2-bit levels
+			case 3:
+				// exactly 4096 / 8192 records in one page: fixed-width pages of exactly 32 KiB x m
+				n = rapid.SampledFrom([]int{4096, 8192}).Draw(t, "exactN")
 			}
 			// page size 0 = the writer's default (MaxPageSize not passed): 1000 records per page
 			w.PageSize = rapid.SampledFrom([]int{10000, 10000, 1000, 700, 0}).Draw(t, "bigPage")
+			if n == 4096 || n == 8192 {
+				w.PageSize = n
+			}
 			for i := 0; i < n; i++ {
 				w.Records = append(w.Records, vt.GenRecord(t, f.Root, g))
 			}
